@@ -77,6 +77,13 @@ let init () =
         let st = mkstyle fc sc w al in
         "BB " ^ srect (ar_styled_bbox a st) ^ " PX " ^ list_out spx (ar_styled_pixels a st)
     | _ -> "BAD-ARGS");
+  (* fixed_point trigonometry: PlaneSector::new on I16F16 angle bit patterns (model Trigfixed) *)
+  register "fx_parts" (function
+    | [a; sw] ->
+        let ps = Trigfixed.fx_plane_sector (z_in a) (z_in sw) in
+        (match ps.ps_op with OpIntersection -> "0" | OpUnion -> "1" | OpEntirePlane -> "2")
+        ^ " " ^ z_out ps.ps_left.px ^ " " ^ z_out ps.ps_left.py ^ " " ^ z_out ps.ps_right.px ^ " " ^ z_out ps.ps_right.py
+    | _ -> "BAD-ARGS");
   register "sec_offset" (function
     | [x; y; d; off] ->
         let s = se_offset { se_tl = pt x y; se_d = z_in d; se_ps = mkps "2" "0" "1024" "0" "1024" } (z_in off) in
